@@ -328,6 +328,8 @@ def execute(sc, ctx):
                     def relabel(t):
                         if isinstance(t, list):
                             return [relabel(x) for x in t]
+                        if serial % 2:
+                            return f"t{t}".encode() if t % 3 == 0 else t       # byte-string labels (loadtxt / h5py style)
                         return f"L{t}" if t % 3 == 0 else t
                     table = relabel(table)
                     ctx.probe("lookup_mixed_text_and_numbers")
